@@ -57,14 +57,24 @@ def one_sequence(ctx, lc, seq, tid, hist_mode):
         ctx.violation("omega-sequence", case, actual=os_)
     if num(k2):
         ev.append({"q": "kappax", "g1": ["E", "D"], "g2": ["K", "R"], "r": common.fx(k2[1])})
-    # random groups
-    for _ in range(3):
+    # random groups; every other round a lopsided pair (a residue type that occurs 1-3 times against frequent ones)
+    from collections import Counter
+    cnt = Counter(seq)
+    rare = [r for r, c in cnt.items() if c <= 3]
+    common_res = [r for r, c in cnt.most_common(4)]
+    for rnd in range(4):
         letters = list(common.AA)
         rng.shuffle(letters)
         a = rng.randint(0, 8)
         b = rng.randint(0, 8)
         g1, g2 = letters[:a], letters[a:a + b]
         mode = rng.choice(["disjoint", "disjoint", "one", "overlap", "complement"])
+        if rnd % 2 == 1 and rare and len(seq) >= 24:
+            r1 = rng.choice(rare)
+            many = [x for x in common_res if x != r1][:rng.randint(1, 2)]
+            if many:
+                g1, g2 = ([r1], many) if rng.random() < 0.5 else (many, [r1])
+                mode = "disjoint"
         if mode == "one":
             g2 = []
         elif mode == "overlap" and g1:
@@ -91,7 +101,7 @@ def one_sequence(ctx, lc, seq, tid, hist_mode):
             if not eq(v, w):
                 ctx.violation("kappaX-complement-changes-value", c2, expected=v, actual=w)
     # rejection of non-amino-acids
-    bad = rng.choice(["X", "B", "1", "*", "KE", "", " ", "Z", "é"])
+    bad = rng.choice(["X", "B", "1", "*", "KE", "", " ", "Z", "é", "DE", "ST", "NQ", "FWY", "KDE", "IL"])
     for args in ((["K", bad],), (["K"], ["E", bad])):
         v = common.call(o.get_kappa_X, *args)
         if v[0] != "exc":
@@ -121,6 +131,10 @@ def run(ctx):
     trs = []
     tid = 0
     short = ["".join(t) for L in range(1, ctx.pick(3, 4) + 1) for t in itertools.product("KEPGS", repeat=L)]
+    # every two-class (P/E/D/K/R vs the rest) pattern of length 6..7|8, spelled at random: Omega beyond the clamp included
+    for L in range(6, ctx.pick(7, 8) + 1):
+        for t in itertools.product((0, 1), repeat=L):
+            short.append("".join(ctx.rng.choice("PEDKR") if b else ctx.rng.choice("ACFGHILMNQSTVWY") for b in t))
     longer = common.random_sequences(ctx.rng, ctx.pick(40, 300), ctx.pick(60, 200), 5)
     for s in short + longer:
         tid += 1
